@@ -76,6 +76,27 @@ Emplace(c) ==          \* o.emplace(v)
 SetValue(c) ==         \* o.value() = T(v): value() is a reference to the contained object
   /\ Len(c) = 2 /\ Engaged(c[1]) /\ IsVal(c[2]) /\ Put(c[1], c[2]) /\ Tick
 
+\* Assignment from a plain value that is NOT a temporary.  std::optional<T>::operator=(U&&):
+\* engaged -> assign through (*o = u), disengaged -> construct from u; either way the destination
+\* ends up holding a copy of u and u's referent - WHEREVER it lives - is read while it is alive.
+AssignValueCopy(c) ==  \* T x(v); o = x;   (lvalue T that lives outside every OpResult)
+  /\ Len(c) = 2 /\ Valid(c[1]) /\ IsVal(c[2]) /\ Put(c[1], c[2]) /\ Tick
+\* The assigned value is (a reference to) the object contained in an OpResult s, in particular in
+\* the destination itself: d = d.value(), best = std::max(best.value(), cand), or any function
+\* that returns a reference to its argument.  c = <<d, s, how>>:
+\*   how = 1   d = s.value()                      (T&)
+\*   how = 2   const T& r = s.value(); d = r      (const T&, what std::max / std::min return)
+\*   how = 3   d = std::move(d.value())           (T&&; only d = s: moving out of ANOTHER OpResult's
+\*             value leaves that one engaged around a moved-from T, whose value is unspecified - R6)
+\* std::optional: s keeps its value, d holds a copy of it; for d = s the contained T is assigned
+\* to itself, which keeps its value (how = 3: T's self-move-assignment; the tracked value types
+\* keep their value under it, so optional<T> does).  An implementation may go through
+\* temporaries, but may not end the lifetime of the contained object before it has read it.
+AssignValueOf(c) ==
+  /\ Len(c) = 3 /\ Valid(c[1]) /\ Engaged(c[2]) /\ c[3] \in {1, 2, 3}
+  /\ (c[3] = 3 => c[1] = c[2])
+  /\ Put(c[1], val[c[2]]) /\ Tick
+
 \* ------------------------------------------------------------------ observers
 HasValue(c) == Len(c) = 1 /\ Ok(c[1]) /\ Same /\ Tick         \* has_value()
 Bool(c)     == Len(c) = 1 /\ Ok(c[1]) /\ Same /\ Tick         \* operator bool
